@@ -42,7 +42,28 @@ fn digest(seed: u64, runs: u64, jobs: usize) -> BTreeMap<(String, u64), (u64, u6
     out.into_inner().unwrap()
 }
 
+/// One case evaluated as the FIRST thing a fresh process does (catches state that only the first run
+/// of a process sees differently: one-time lazy initialisation that draws hash seeds, ...).
+fn single(seed: u64, family: &str, idx: u64) -> (u64, u64, u64) {
+    crate::hook::warm_up();
+    let r = if let Some(check) = family.strip_suffix("-component") {
+        crate::components::case_record(check, Tier::Quick, seed, idx)
+    } else if family == "C10-state-readers" {
+        crate::statecomp::case_record(Tier::Quick, seed, idx)
+    } else if family == "C10-history-differential" {
+        crate::histcomp::case_record(Tier::Quick, seed, idx)
+    } else {
+        checks::pipeline_case_record(family, Tier::Quick, seed, idx)
+    };
+    (r.stats.trace_hash, r.stats.decisions, r.stats.behaviour)
+}
+
 pub fn determinism(seed: u64, runs: u64, args: &[String]) -> i32 {
+    if let Some(pos) = args.iter().position(|a| a == "--single") {
+        let (h, d, b) = single(seed, &args[pos + 1], args[pos + 2].parse().unwrap());
+        println!("{} {} {h:016x} {d} {b:016x}", args[pos + 1], args[pos + 2]);
+        return 0;
+    }
     if args.iter().any(|a| a == "--child") {
         let jobs = args.iter().position(|a| a == "--jobs").and_then(|i| args.get(i + 1)).and_then(|s| s.parse().ok()).unwrap_or(4);
         for ((check, idx), (h, d, b)) in digest(seed, runs, jobs) {
@@ -79,6 +100,28 @@ pub fn determinism(seed: u64, runs: u64, args: &[String]) -> i32 {
         println!("DIVERGENCE: {} vs {} lines", a.len(), b.len());
         diffs += 1;
     }
-    println!("determinism: {} cases compared across 2 processes (jobs 16 vs 3), {} divergences", a.len(), diffs);
+    // the same cases as the first (and only) case of a fresh process each
+    let mut families: Vec<String> = checks::PIPELINE_CHECKS.iter().map(|c| c.to_string()).collect();
+    families.extend(["C15-component", "C16-component", "C17-component", "C07-component", "C10-state-readers", "C10-history-differential"].map(String::from));
+    let mut singles = 0;
+    for family in &families {
+        for idx in [1u64, runs.saturating_sub(1).min(7)] {
+            let o = std::process::Command::new(&exe)
+                .args(["selfcheck", "determinism", &runs.to_string(), "--single", family, &idx.to_string()])
+                .env("VERIF_SEED", seed.to_string())
+                .output()
+                .expect("spawn single");
+            let line = String::from_utf8_lossy(&o.stdout).lines().last().unwrap_or("").to_string();
+            singles += 1;
+            if !a.contains(&line.as_str()) {
+                if diffs < 10 {
+                    let batch = a.iter().find(|l| l.starts_with(&format!("{family} {idx} "))).copied().unwrap_or("<missing>");
+                    println!("DIVERGENCE (fresh process vs batch):\n  fresh: {line}\n  batch: {batch}");
+                }
+                diffs += 1;
+            }
+        }
+    }
+    println!("determinism: {} cases compared across 2 processes (jobs 16 vs 3) and {singles} of them re-run as the only case of a fresh process, {} divergences", a.len(), diffs);
     if diffs == 0 { 0 } else { 2 }
 }
